@@ -112,11 +112,18 @@ def lookup_self(pending):
                 raise Unsupported('Table.%s' % attr)
 
         class ByAlias:
-            def __init__(self, t):
+            """defaultdict(dict): the entry of the alias exists after any earlier read of it (arbitrary history, a fresh
+            boolean), and certainly after a read in this call"""
+            def __init__(self, t, label):
                 self.t = t
+                self.exists = fresh(BOOL, 'alias_entry_exists_in_' + label)
 
             def vc_getitem(self, e, k, node=None):
+                self.exists = True
                 return self.t
+
+            def vc_contains(self, e, k):
+                return self.exists if isinstance(self.exists, bool) else self.exists.z
         wl = Table(INB, lambda k: Sym(INDEX(k.z), STR))
         ext = Table(INE, lambda k: (Sym(EXT_I(k.z), STR), Sym(EXT_O(k.z), STR), Sym(EXT_D(k.z), INT)))
         eng.ghost.clear()
@@ -126,7 +133,7 @@ def lookup_self(pending):
             eng.spec_env[nm] = Builtin(nm, lambda e, a, k, n, fn=fn: Sym(fn(a[0].z), BOOL))
         eng.spec_env['IDX'] = Builtin('IDX', lambda e, a, k, n: Sym(INDEX(a[0].z), STR))
         eng.spec_env['EXT'] = Builtin('EXT', lambda e, a, k, n: (Sym(EXT_I(a[0].z), STR), Sym(EXT_O(a[0].z), STR), Sym(EXT_D(a[0].z), INT)))
-        o = Obj('BarcodeParser', {'barcodes': ByAlias(wl), 'extendedBarcodes': ByAlias(ext),
+        o = Obj('BarcodeParser', {'barcodes': ByAlias(wl, 'barcodes'), 'extendedBarcodes': ByAlias(ext, 'extendedBarcodes'),
                                   'pending_files': ({'wl': 'wl.bc'} if pending else {})},
                 info=eng.loader.classref(FP, 'BarcodeParser'))
 
@@ -149,7 +156,10 @@ lookup = Contract(
         'otherwise_nothing': 'implies(not INB(barcode) and not INE(barcode), result == (None, None, None))',
         'a_lazily_loaded_alias_is_loaded_once_before_answering_nothing':
             'implies(PENDING and not INB(barcode) and not INE(barcode), GHOST["loaded"] == ["wl"])',
-        'no_load_otherwise': 'implies(not (PENDING and not INB(barcode) and not INE(barcode)), GHOST["loaded"] == [])',
+        # (whether a pending alias is loaded before or after a hit is not the property's business: only that nothing is
+        # loaded when nothing is pending, and at most once)
+        'nothing_loaded_when_nothing_is_pending': 'implies(not PENDING, GHOST["loaded"] == [])',
+        'loaded_at_most_once': 'len(GHOST["loaded"]) <= 1',
     },
     raises={},
 )
@@ -355,15 +365,23 @@ def lazy_replay(entry):
             with open(os.path.join(d, 'other.bc'), 'w') as f:
                 f.write('TTTT\n')
             eager = BP(d, hammingDistanceExpansion=1)
-            lazy = BP(d, hammingDistanceExpansion=1, lazyLoad='*')
-            if entry == 'getitem':
-                lazy['wl']
-            elif entry == 'load':
-                lazy.parse_pending_barcode_file_of_alias('wl')
             want = eager.getIndexCorrectedBarcodeAndHammingDistance('AAAT', 'wl')
-            got = lazy.getIndexCorrectedBarcodeAndHammingDistance('AAAT', 'wl')
-            obs = {'outcome': 'return', 'value': list(got), 'eager': list(want), 'pending_after': sorted(lazy.pending_files)}
-            if tuple(got) != tuple(want) or 'wl' in lazy.pending_files or 'other' not in lazy.pending_files:
+            runs = {}
+            # the contract's pre-state: alias wl pending, its (defaultdict) table entries possibly created already by an
+            # earlier getTargetCount('wl') - both histories are replayed
+            for history in ('fresh parser', 'after getTargetCount'):
+                lazy = BP(d, hammingDistanceExpansion=1, lazyLoad='*')
+                if history == 'after getTargetCount':
+                    lazy.getTargetCount('wl')
+                if entry == 'getitem':
+                    lazy['wl']
+                elif entry == 'load':
+                    lazy.parse_pending_barcode_file_of_alias('wl')
+                got = lazy.getIndexCorrectedBarcodeAndHammingDistance('AAAT', 'wl')
+                runs[history] = {'value': list(got), 'pending_after': sorted(lazy.pending_files),
+                                 'ok': tuple(got) == tuple(want) and 'wl' not in lazy.pending_files and 'other' in lazy.pending_files}
+            obs = {'outcome': 'return', 'value': runs, 'eager': list(want)}
+            if not all(r['ok'] for r in runs.values()):
                 return {'status': 'confirmed', 'observed': obs, 'failed': [{'clause': clause}]}
             return {'status': 'not-reproduced', 'observed': obs}
         finally:
